@@ -271,7 +271,7 @@ func (r *tblReach) siteFacts(caller *tblFn, call *ast.CallExpr, callee *tblFn) *
 						for _, k := range im.Kinds {
 							set[k.Val().ExactString()] = true
 						}
-						out.restrict(&tblFact{Path: pp.extend(".Kind()", false), Enum: ki.Enum, Allowed: set, Why: where + " passes a " + im.name()})
+						out.restrict(&tblFact{Path: pp.extend("."+ki.Method+"()", false), Enum: ki.Enum, Allowed: set, Why: where + " passes a " + im.name()})
 						return
 					}
 				}
@@ -415,11 +415,11 @@ func (m *tblModel) tblLicensedAt(g *tblGuard, node ast.Node, self *ast.SwitchStm
 			return ""
 		}
 		se, ok := ast.Unparen(call.Fun).(*ast.SelectorExpr)
-		if !ok || se.Sel.Name != "Kind" {
+		if !ok {
 			return ""
 		}
 		ki := m.ifaceOf(info.TypeOf(se.X))
-		if ki == nil {
+		if ki == nil || se.Sel.Name != ki.Method {
 			return ""
 		}
 		if m.tblIsValueIface(ki) {
@@ -472,6 +472,155 @@ func (m *tblModel) recoveryOnly() map[*types.TypeName]string {
 	m.recovery = out
 	tblModelMu.Unlock()
 	return out
+}
+
+// tblBaseOf: the constants the enum-valued expression src (in f) can have by
+// construction: the discriminator of a Kind-style interface value (producer
+// set), of a concrete implementer, the opcode of an instruction outside the
+// compiler, or - for a parameter of a function that is only called directly -
+// what every call site passes. ok=false: nothing known (any constant).
+func (m *tblModel) tblBaseOf(f *tblFn, src ast.Expr, en *Enum, depth int) (base map[string]bool, baseWhy string, class string, ok bool) {
+	info := f.Pkg.TypesInfo
+	rel := relPkg(f.Pkg.PkgPath)
+	downstream := !strings.HasSuffix(rel, "homescript/analyzer") && !strings.HasSuffix(rel, "homescript/analyzer/ast")
+	src = ast.Unparen(src)
+	class = "value"
+	if call, isCall := src.(*ast.CallExpr); isCall && len(call.Args) == 0 {
+		se, isSel := ast.Unparen(call.Fun).(*ast.SelectorExpr)
+		if !isSel {
+			return nil, "", "", false
+		}
+		recvT := info.TypeOf(se.X)
+		if ki := m.ifaceOf(recvT); ki != nil && se.Sel.Name == ki.Method && ki.Enum.Type == en.Type {
+			reach, _ := m.reachableKinds(ki)
+			base = reach
+			class = "kind"
+			var unprod, recov []string
+			for _, k := range en.Consts {
+				v := k.Val().ExactString()
+				if !reach[v] && en.ByVal[v][0] == k {
+					unprod = append(unprod, k.Name())
+				}
+			}
+			if downstream && strings.HasSuffix(ki.Named.Obj().Pkg().Path(), "/analyzer/ast") {
+				ro := m.recoveryOnly()
+				for v := range reach {
+					all := len(ki.byKind[v]) > 0
+					for _, im := range ki.byKind[v] {
+						if _, ok := ro[im.T.Obj()]; !ok {
+							all = false
+						}
+					}
+					if all {
+						delete(base, v)
+						recov = append(recov, ki.Enum.ByVal[v][0].Name())
+					}
+				}
+			}
+			baseWhy = fmt.Sprintf("Kind() of %s: producer set = kinds of the implementers converted to an interface somewhere in the module", ki.Name)
+			if len(unprod) > 0 {
+				baseWhy += " (never produced: " + strings.Join(unprod, ",") + ")"
+			}
+			if len(recov) > 0 {
+				sort.Strings(recov)
+				baseWhy += " (error-recovery placeholders the analyzer builds only after reporting an error, not met by this stage: " + strings.Join(recov, ",") + ")"
+			}
+			return base, baseWhy, class, true
+		}
+		if recvT != nil && m.tblIsDiscriminatorName(se.Sel.Name, en) {
+			// Kind() of a concrete value: exactly its kinds
+			for _, ki := range m.ifaces {
+				if ki.Enum.Type == en.Type && ki.Method == se.Sel.Name {
+					if im := ki.implOf(recvT); im != nil && im.NonConst == "" {
+						base = map[string]bool{}
+						for _, k := range im.Kinds {
+							base[k.Val().ExactString()] = true
+						}
+						return base, "Kind() of the concrete type " + im.name(), class, true
+					}
+				}
+			}
+			return nil, "", "", false
+		}
+		if nt, isNamed := types.Unalias(recvT).(*types.Named); isNamed && m.c.HasPkg("homescript/compiler") {
+			// the opcode of an instruction: what the compiler can leave in a function body
+			if op := m.opcodeModel(); op != nil && nt.Obj() == op.iface.Obj() && se.Sel.Name == op.method && f.Pkg.Types != op.iface.Obj().Pkg() {
+				base = map[string]bool{}
+				var stripped []string
+				for v := range op.emitted {
+					if _, s := op.stripped[v]; s {
+						stripped = append(stripped, op.name(v))
+						continue
+					}
+					base[v] = true
+				}
+				sort.Strings(stripped)
+				baseWhy = fmt.Sprintf("%s() of %s outside the compiler: the %d opcodes the compiler builds (R-opcode-shape) minus those filtered out before Compile returns (%s)", op.method, tblTypeName(op.iface), len(op.emitted), strings.Join(stripped, ","))
+				return base, baseWhy, "kind", true
+			}
+		}
+		return nil, "", "", false
+	}
+	// a parameter of a function whose every reference is a direct call: the union over the call sites
+	if id, isId := src.(*ast.Ident); isId && depth < 2 {
+		obj := info.Uses[id]
+		idx, isParam := tblParamIndex(f, obj)
+		if !isParam || idx < 0 || m.guardFor(f).written[obj] > 0 {
+			return nil, "", "", false
+		}
+		if closed, _ := m.reach().isClosed(f.Obj); !closed {
+			return nil, "", "", false
+		}
+		sig := f.Obj.Type().(*types.Signature)
+		if sig.Variadic() && idx >= sig.Params().Len()-1 {
+			return nil, "", "", false
+		}
+		uses := m.uses[f.Obj]
+		if len(uses) == 0 {
+			return nil, "", "", false
+		}
+		base = map[string]bool{}
+		for _, u := range uses {
+			if u.Call == nil || u.In == nil || idx >= len(u.Call.Args) {
+				return nil, "", "", false
+			}
+			arg := u.Call.Args[idx]
+			// a constant argument
+			if k := ConstOf(u.In.Pkg.TypesInfo, ast.Unparen(arg)); k != nil {
+				base[k.Val().ExactString()] = true
+				if baseWhy == "" {
+					baseWhy = "constant arguments"
+				}
+				continue
+			}
+			b, why, cls, ok := m.tblBaseOf(u.In, m.guardFor(u.In).defOf(arg), en, depth+1)
+			if !ok {
+				return nil, "", "", false
+			}
+			for v := range b {
+				base[v] = true
+			}
+			if cls == "kind" {
+				class = "kind"
+			}
+			if baseWhy == "" || baseWhy == "constant arguments" {
+				baseWhy = why
+			}
+		}
+		return base, fmt.Sprintf("parameter %s, at every call site of %s: %s", id.Name, f.name(), baseWhy), class, true
+	}
+	return nil, "", "", false
+}
+
+// tblIsDiscriminatorName: some Kind-style interface over this enum uses a
+// discriminator method of that name.
+func (m *tblModel) tblIsDiscriminatorName(name string, en *Enum) bool {
+	for _, ki := range m.ifaces {
+		if ki.Enum.Type == en.Type && ki.Method == name {
+			return true
+		}
+	}
+	return false
 }
 
 // tblClauseOnlyPanics: the clause body is nothing but a panic.
@@ -560,75 +709,10 @@ func ruleEnumTotal(c *Ctx) []Obligation {
 				baseWhy := "arbitrary value of " + tblTypeName(en.Type) + ": all constants"
 				class := "value"
 				tp := g.pathOf(sw.Tag)
-				// where the value comes from (`k := x.Kind(); switch k` is `switch x.Kind()`)
-				if call, ok := g.defOf(sw.Tag).(*ast.CallExpr); ok && len(call.Args) == 0 {
-					if se, ok := ast.Unparen(call.Fun).(*ast.SelectorExpr); ok {
-						recvT := info.TypeOf(se.X)
-						if ki := m.ifaceOf(recvT); ki != nil && se.Sel.Name == "Kind" && ki.Enum.Type == en.Type {
-							reach, _ := m.reachableKinds(ki)
-							base = reach
-							class = "kind"
-							var unprod, recov []string
-							for _, k := range en.Consts {
-								v := k.Val().ExactString()
-								if !reach[v] && en.ByVal[v][0] == k {
-									unprod = append(unprod, k.Name())
-								}
-							}
-							if downstream && strings.HasSuffix(ki.Named.Obj().Pkg().Path(), "/analyzer/ast") {
-								ro := m.recoveryOnly()
-								for v := range reach {
-									all := len(ki.byKind[v]) > 0
-									for _, im := range ki.byKind[v] {
-										if _, ok := ro[im.T.Obj()]; !ok {
-											all = false
-										}
-									}
-									if all {
-										delete(base, v)
-										recov = append(recov, ki.Enum.ByVal[v][0].Name())
-									}
-								}
-							}
-							baseWhy = fmt.Sprintf("Kind() of %s: producer set = kinds of the implementers converted to an interface somewhere in the module", ki.Name)
-							if len(unprod) > 0 {
-								baseWhy += " (never produced: " + strings.Join(unprod, ",") + ")"
-							}
-							if len(recov) > 0 {
-								sort.Strings(recov)
-								baseWhy += " (error-recovery placeholders the analyzer builds only after reporting an error, not met by this stage: " + strings.Join(recov, ",") + ")"
-							}
-						} else if se.Sel.Name == "Kind" && recvT != nil {
-							// Kind() of a concrete value: exactly its kinds
-							for _, ki := range m.ifaces {
-								if ki.Enum.Type == en.Type {
-									if im := ki.implOf(recvT); im != nil && im.NonConst == "" {
-										base = map[string]bool{}
-										for _, k := range im.Kinds {
-											base[k.Val().ExactString()] = true
-										}
-										baseWhy = "Kind() of the concrete type " + im.name()
-									}
-								}
-							}
-						} else if nt, ok := types.Unalias(recvT).(*types.Named); ok && m.c.HasPkg("homescript/compiler") {
-							// the opcode of an instruction: what the compiler can leave in a function body
-							if op := m.opcodeModel(); op != nil && nt.Obj() == op.iface.Obj() && se.Sel.Name == op.method && p.Types != op.iface.Obj().Pkg() {
-								base = map[string]bool{}
-								var stripped []string
-								for v := range op.emitted {
-									if _, s := op.stripped[v]; s {
-										stripped = append(stripped, op.name(v))
-										continue
-									}
-									base[v] = true
-								}
-								class = "kind"
-								sort.Strings(stripped)
-								baseWhy = fmt.Sprintf("%s() of %s outside the compiler: the %d opcodes the compiler builds (R-opcode-shape) minus those filtered out before Compile returns (%s)", op.method, tblTypeName(op.iface), len(op.emitted), strings.Join(stripped, ","))
-							}
-						}
-					}
+				// where the value comes from (`k := x.Kind(); switch k` is `switch x.Kind()`; a parameter: what
+				// every call site passes)
+				if b, why, cls, ok := m.tblBaseOf(f, g.defOf(sw.Tag), en, 0); ok {
+					base, baseWhy, class = b, why, cls
 				}
 				// 2./3. guards and call sites
 				required := base
